@@ -909,12 +909,24 @@ func oracleRecord1(root *Node, in *Input, paths, excl, strips []string, norm, fo
 	return o.out, "OK" + lib.ShowArtifacts(m)
 }
 
-// abstains ("") when the two exclusion readings differ
+// Exclusion is decided on the walked location: a link is skipped when its own
+// path is excluded, and what it leads to is skipped when the resolved path is
+// excluded (an excluded file must not reappear under a link's name).  The other
+// reading (exclusion by the name a file is reached under) is computed too; the
+// oracle abstains ("") only where the two differ for a path argument that is
+// not spelled cleanly (there the tested string itself is ambiguous).
 func oracleRecord(root *Node, in *Input, paths, excl, strips []string, norm, follow, cleanRoot bool) (map[string]map[string]string, string) {
 	ma, a := oracleRecord1(root, in, paths, excl, strips, norm, follow, true, cleanRoot)
-	_, b := oracleRecord1(root, in, paths, excl, strips, norm, follow, false, cleanRoot)
-	if a != b {
-		return nil, ""
+	unclean := false
+	for _, p := range paths {
+		if path.Clean(p) != p {
+			unclean = true
+		}
+	}
+	if unclean {
+		if _, b := oracleRecord1(root, in, paths, excl, strips, norm, follow, false, cleanRoot); a != b {
+			return nil, ""
+		}
 	}
 	return ma, a
 }
@@ -1949,6 +1961,164 @@ func genOddNames(r *lib.Rng, fixed int) (*Input, string) {
 	return in, klass + ":" + in.Call
 }
 
+// ---- names that tools like to ignore; recorded with no or unrelated exclude patterns ----
+
+var toolPaths = []string{
+	".git/hooks/post-checkout", ".git/config", "sub/.git/config", "src/loader.pyc", "src/loader.py", "__pycache__/m.cpython-311.pyc",
+	"app.bin~", "app.bin", ".DS_Store", ".gitignore", ".hidden/x", "node_modules/x.js", "#autosave#", "core", "Thumbs.db",
+	"notes.swp", ".main.c.swp", "patch.orig", ".svn/entries", "CVS/Root", "sub/keep~", "sub/a.pyc", "build.log", "x.link",
+}
+var unrelatedExcl = [][]string{nil, nil, nil, {}, {"*.log"}, {"dist/"}, {"*.o", "tmp/"}, {"!*.pyc"}, {"nothing-matches"}}
+
+func addPath(root *Node, p string, content string) {
+	cur := root
+	segs := strings.Split(p, "/")
+	for i, sg := range segs {
+		if i == len(segs)-1 {
+			if cur.child(sg) == nil {
+				cur.Children = append(cur.Children, &Node{Kind: "file", Name: sg, Content: []byte(content)})
+			}
+			return
+		}
+		c := cur.child(sg)
+		if c == nil {
+			c = &Node{Kind: "dir", Name: sg}
+			cur.Children = append(cur.Children, c)
+		}
+		cur = c
+	}
+}
+
+func routeFor(r *lib.Rng, in *Input, root *Node, pick int) {
+	switch pick {
+	case 0, 1:
+		in.Call = "run"
+	case 2:
+		in.Call = "startstop"
+	case 3:
+		in.Call = "rerecord"
+	case 4, 5:
+		in.Call = "match"
+	default:
+		in.Call = "record"
+	}
+	switch in.Call {
+	case "run", "startstop", "rerecord":
+		in.Paths2 = in.Paths
+		in.Ops = genOps(r, root)
+		in.After = applyOps(root, in.Ops)
+	case "match":
+		in.Norm, in.Follow = false, false
+		paths := in.Paths
+		if len(paths) == 0 {
+			paths = []string{"."}
+		}
+		in.Products = map[string]map[string]string{}
+		if local, st := oracleRecord(root, in, paths, in.Excl, in.Strips, false, false, false); st != "" && st != "ERR" {
+			for _, k := range lib.SortedKeys(local) {
+				h := map[string]string{}
+				for a, v := range local[k] {
+					h[a] = v
+				}
+				switch r.Intn(6) {
+				case 0:
+					continue
+				case 1:
+					for a := range h {
+						h[a] = tagOf(a, []byte("changed"))
+						break
+					}
+				}
+				in.Products[k] = h
+			}
+		}
+	}
+}
+
+func genToolNames(r *lib.Rng, fixed bool) (*Input, string) {
+	root := &Node{Kind: "dir"}
+	n := r.Range(4, 10)
+	if fixed {
+		n = len(toolPaths)
+	}
+	perm := make([]int, len(toolPaths))
+	for i := range perm {
+		perm[i] = i
+	}
+	if !fixed {
+		r.Shuffle(len(perm), func(i, j int) { perm[i], perm[j] = perm[j], perm[i] })
+	}
+	for _, i := range perm[:n] {
+		addPath(root, toolPaths[i], "c:"+toolPaths[i])
+	}
+	root.sortRec()
+	in := &Input{Tree: root, Paths: []string{"."}, Algs: algChoices[r.Intn(7)], Excl: unrelatedExcl[r.Intn(len(unrelatedExcl))],
+		Norm: r.Bool(), Follow: r.Bool()}
+	if !fixed && r.Chance(1, 4) {
+		var tops []string
+		for _, c := range root.Children {
+			tops = append(tops, c.Name)
+		}
+		r.Shuffle(len(tops), func(i, j int) { tops[i], tops[j] = tops[j], tops[i] })
+		in.Paths = tops[:r.Range(1, len(tops))]
+	}
+	pick := r.Intn(10)
+	if fixed {
+		pick, in.Excl = 9, nil
+	}
+	routeFor(r, in, root, pick)
+	return in, "toolnames:" + in.Call
+}
+
+// ---- exclude patterns and what links lead to ----
+
+func genExclLinks(r *lib.Rng, fixed bool) (*Input, string) {
+	mk := func(name, c string) *Node { return &Node{Kind: "file", Name: name, Content: []byte(c)} }
+	ln := func(name, t string) *Node { return &Node{Kind: "link", Name: name, Target: t} }
+	keys := &Node{Kind: "dir", Name: "keys", Children: []*Node{mk("id.rsa", "private"), mk("server.key", "secret"), mk("notes", "n"),
+		ln("inner", "../pub/readme"), ln("k2", "server.key")}}
+	pub := &Node{Kind: "dir", Name: "pub", Children: []*Node{mk("readme", "hello"), mk("id.pub", "public"),
+		ln("leak", "../keys/server.key"), ln("c1", "c2"), ln("c2", "../keys/id.rsa")}}
+	root := &Node{Kind: "dir", Children: []*Node{keys, pub, mk("top.key", "t"), ln("lk", "keys/server.key"), ln("ok", "pub/readme"),
+		ln("dl", "keys"), ln("pl", "pub"), ln("chain.key", "pub/c1")}}
+	if !fixed && r.Bool() {
+		// drop a few entries for variety
+		for _, d := range []*Node{root, keys, pub} {
+			var keep []*Node
+			for _, c := range d.Children {
+				if c.Kind != "link" || r.Chance(3, 4) {
+					keep = append(keep, c)
+				}
+			}
+			d.Children = keep
+		}
+	}
+	root.sortRec()
+	pats := [][]string{{"keys/"}, {"*.key"}, {"id.*"}, {"keys/", "*.key"}, {"server.key"}, {"keys"}, {"lk"}, {"pub/", "!readme"}, {"*.rsa", "leak"}}
+	in := &Input{Tree: root, Paths: []string{"."}, Algs: algChoices[r.Intn(7)], Excl: pats[r.Intn(len(pats))], Norm: r.Bool(), Follow: r.Chance(2, 3)}
+	if fixed {
+		in.Excl, in.Follow = []string{"keys/"}, true
+	} else if r.Chance(1, 4) {
+		in.Paths = [][]string{{"pub"}, {"lk", "pub"}, {"dl"}, {"pub", "keys"}, {"chain.key"}}[r.Intn(5)]
+		ok := true
+		for _, p := range in.Paths {
+			if root.child(p) == nil {
+				ok = false
+			}
+		}
+		if !ok {
+			in.Paths = []string{"."}
+		}
+	}
+	pick := r.Intn(12)
+	if fixed {
+		pick = 9
+	}
+	// genOps must not write through links: it only uses real files and directories
+	routeFor(r, in, root, pick)
+	return in, "excl-links:" + in.Call
+}
+
 func genRun(r *lib.Rng, call string) (*Input, string) {
 	budget := r.Range(4, 12)
 	root := genDir(r, "", 0, &budget)
@@ -2081,6 +2251,10 @@ func genCase(r *lib.Rng, i int) (*Input, string) {
 		return genHistory(r, []string{"rerecord", "run", "startstop", "rematch"}[i-6])
 	case i == 10 || i == 11:
 		return genOddNames(r, i-9)
+	case i == 12 || (k >= 60 && k < 63):
+		return genToolNames(r, i == 12)
+	case i == 13 || (k >= 63 && k < 66):
+		return genExclLinks(r, i == 13)
 	case k >= 66 && k < 72:
 		return genOddNames(r, 0)
 	case k >= 76 && k < 82:
